@@ -189,10 +189,15 @@ func (s *stdSvc) gViaStack(rt *rapid.T, label string, g stdIngress, max int) []A
 }
 
 func (s *stdSvc) gRouteEntry(rt *rapid.T, label string) ANameAddr {
+	// Such an entry can become the next hop (C13: own entry consumed, no
+	// explicit hop): its host is therefore either unresolvable (the request is
+	// then dropped at once) or a harness endpoint - never an address outside
+	// the private loopback block, which could black-hole a TCP dial.
 	n := gNameAddr(rt, label, naOpts{maxParams: 3, tag: new(string), uri: uriOpts{hostFn: func(rt *rapid.T, l string) string {
-		return rapid.SampledFrom([]string{"later.example", "edge.example.net", "10.66.0.1", "hop-b.test"}).Draw(rt, l)
+		return rapid.SampledFrom([]string{"later.example", "edge.example.net", "hop-b.test", s.ip(21)}).Draw(rt, l)
 	}, userFn: func(rt *rapid.T, l string) string { return gFromAlphabet(rt, l, tokAlpha+"-_.!~*'&=+$/%", 1, 8) }}})
 	n.URI.Hdrs = nil
+	n.URI.Port = rapid.SampledFrom([]int{0, 5060, 5070, 5061}).Draw(rt, label+".port")
 	return n
 }
 
@@ -302,6 +307,12 @@ type relayResult struct {
 // runRequest executes the case and returns observation + expectation.
 // A lost in-domain message is returned as err of type labLost.
 func (s *stdSvc) runRequest(rc relayCase) (*relayResult, error) {
+	return s.runRequestJournal("", rc, nil)
+}
+
+// runRequestJournal additionally journals the case (with the expectation)
+// before the stimulus is sent, so that a product crash leaves a replay.
+func (s *stdSvc) runRequestJournal(test string, rc relayCase, desc func(mOutcome) any) (*relayResult, error) {
 	g := rc.Ingress
 	L := s.transportOf(g)
 	send, srcIP, srcPort, err := s.sender(g)
@@ -329,6 +340,9 @@ func (s *stdSvc) runRequest(rc relayCase) (*relayResult, error) {
 		}
 	}
 	res.Stamp = s.model.receivedSupport(g.Entry)
+	if desc != nil {
+		V.Journal(test, desc(res.Exp))
+	}
 	if err := send(rc.Msg.Bytes()); err != nil {
 		return nil, err
 	}
